@@ -144,9 +144,10 @@ example : byNumber [⟨"10.d".toList, true⟩, ⟨"Method".toList, true⟩, ⟨"
 
 /-- Every scan `r < R` of every mass `j < k` — for every `R ≥ 1`, `k ≥ 1`, so `k = 1` and `k = 2`
 are included — decodes to the Analog value of profile record `r`, column `j`, and the clip is not
-active, PROVIDED the scan records say `SpectrumOffset = h + r·ByteCount` with `h < ByteCount`. -/
-theorem binary_pixel {α : Type} (R k h bc : Nat) (scans : List ScanRec) (profile : List (List α))
-    (L : Layout R k h bc scans profile) (r j : Nat) (hr : r < R) (hj : j < k) :
+active, for scan records laid out like the instrument's: `SpectrumOffset = 68 + r·ByteCount`,
+`ByteCount > 0` (any value, in particular `28·k`). -/
+theorem binary_pixel {α : Type} (R k bc : Nat) (scans : List ScanRec) (profile : List (List α))
+    (L : Layout R k bc scans profile) (r j : Nat) (hr : r < R) (hj : j < k) :
     (∃ v, (profile[r]?).bind (fun row => row[j]?) = some v ∧
       ((decode (List.range' 1 k) scans profile)[j]?).bind (fun col => col[r]?) = some (some v)) ∧
     r * k + j ≤ R * k - 1 := by
@@ -158,35 +159,46 @@ theorem binary_pixel {α : Type} (R k h bc : Nat) (scans : List ScanRec) (profil
   simp only [List.length_range', Option.map_some, Option.bind_some]
   rw [Nat.add_comm 1 (1 * j), Nat.one_mul, decodeMass_getElem L r j hr hj, hv]
 
-/-- non-vacuity: one mass, three scans, offsets starting at 0 -/
-example : Layout 3 1 0 28 [⟨0, 28, 0⟩, ⟨28, 28, 0⟩, ⟨56, 28, 0⟩] [[10], [20], [30]] :=
+/-- non-vacuity: one mass, three scans, the fixture layout (`ByteCount = 28`) -/
+example : Layout 3 1 28 [⟨68, 28, 0⟩, ⟨96, 28, 0⟩, ⟨124, 28, 0⟩] [[10], [20], [30]] :=
   ⟨rfl, rfl, by decide, by decide, by decide⟩
 
-/-- The hypothesis `h < ByteCount` is needed, and the layout of the fixtures (`h = 68`, the header
-of MSProfile.bin, `ByteCount = 28·k`) violates it for `k = 1`: three scans with Analog values
-10, 20, 30 decode to 30, 30, 30. -/
-theorem binary_header_offset_k1_wrong :
-    decode [1] [⟨68, 28, 0⟩, ⟨96, 28, 0⟩, ⟨124, 28, 0⟩] [[(10 : Nat)], [20], [30]]
-      = [[some 30, some 30, some 30]] := by decide
+example : decode [1] [⟨68, 28, 0⟩, ⟨96, 28, 0⟩, ⟨124, 28, 0⟩] [[(10 : Nat)], [20], [30]]
+    = [[some 10, some 20, some 30]] := by decide
 
-/-- ... and for `k = 2` (`ByteCount = 56`): every scan shows the next scan's values. -/
-theorem binary_header_offset_k2_wrong :
-    decode [1, 2] [⟨68, 56, 0⟩, ⟨124, 56, 0⟩, ⟨180, 56, 0⟩] [[(10 : Nat), 11], [20, 21], [30, 31]]
+/-- Regression documentation of the defect repaired by 0904cc9: the old formula
+`SpectrumOffset // ByteCount` on the instrument's layout (`SpectrumOffset = 68 + r·ByteCount`,
+`ByteCount = 28·k`) is wrong for `k = 1`: Analog values 10, 20, 30 decode to 30, 30, 30 ... -/
+theorem binary_unrepaired_k1_wrong :
+    decodeMassUnrepaired 1 [⟨68, 28, 0⟩, ⟨96, 28, 0⟩, ⟨124, 28, 0⟩] [[(10 : Nat)], [20], [30]] 1
+      = [some 30, some 30, some 30] := by decide
+
+/-- ... and for `k = 2` (`ByteCount = 56`): every scan shows the next scan's values ... -/
+theorem binary_unrepaired_k2_wrong :
+    [1, 2].map (decodeMassUnrepaired 2 [⟨68, 56, 0⟩, ⟨124, 56, 0⟩, ⟨180, 56, 0⟩] [[(10 : Nat), 11], [20, 21], [30, 31]])
       = [[some 20, some 30, some 31], [some 21, some 31, some 31]] := by decide
 
-/-- ... while for `k ≥ 3` the fixture layout satisfies the hypothesis. -/
-theorem fixture_header_small (k : Nat) (hk : 3 ≤ k) : 68 < 28 * k := by omega
+/-- ... while it was right exactly when the header is smaller than one record, i.e. `k ≥ 3`. -/
+theorem binary_unrepaired_ok_iff (k r : Nat) (hk : 1 ≤ k) : (68 + r * (28 * k)) / (28 * k) = r ↔ 3 ≤ k := by
+  have hpos : 0 < 28 * k := by omega
+  rw [Nat.add_mul_div_right _ _ hpos]
+  constructor
+  · intro h
+    by_contra hlt
+    have hk2 : k = 1 ∨ k = 2 := by omega
+    rcases hk2 with rfl | rfl <;> simp at h
+  · intro h
+    rw [Nat.div_eq_of_lt (by omega)]; simp
 
 /-- The whole binary import equals its specification — pixel `[line][element][scan]` is the Analog
 value of that element in that scan's record of that line's data file, the lines being the collected
 ones in collected order, the names those of the mass table — for every batch whose data files are
-laid out as `binary_pixel` requires (same `R`, `k`, header part `h` for every file; any number of
-lines), whenever the collection mechanism returns what its specification returns (which the
+laid out as in `binary_pixel` (the same `R` and `k` for every file; any number of lines), whenever the collection mechanism returns what its specification returns (which the
 collection theorems above establish reader by reader). -/
 theorem stack_pixel {α : Type} (m : Meta) (files : List (DataFile α)) (ms : List MassInfo)
-    (methods : List Method) (R k h : Nat)
+    (methods : List Method) (R k : Nat)
     (hids : ms.map (·.id) = List.range' 1 k)
-    (hfiles : ∀ f ∈ files, f.hasBinary = true ∧ ∃ bc, Layout R k h bc f.scans f.profile)
+    (hfiles : ∀ f ∈ files, f.hasBinary = true ∧ ∃ bc, Layout R k bc f.scans f.profile)
     (hlines : linesOf m false methods = linesOf m true methods) :
     loadBinary m files (some ms) methods = loadBinarySpec m files ms methods := by
   unfold loadBinary loadBinarySpec
@@ -230,12 +242,12 @@ def exMeta : Meta :=
     csv := none, acq := none }
 
 def exFiles : List (DataFile Nat) :=
-  [{ name := "9.d".toList, hasBinary := true, scans := [⟨0, 56, 0⟩, ⟨56, 56, 1⟩], profile := [[1, 2], [3, 4]], csv := none },
-   { name := "10.d".toList, hasBinary := true, scans := [⟨0, 56, 0⟩, ⟨56, 56, 1⟩], profile := [[5, 6], [7, 8]], csv := none }]
+  [{ name := "9.d".toList, hasBinary := true, scans := [⟨68, 56, 0⟩, ⟨124, 56, 1⟩], profile := [[1, 2], [3, 4]], csv := none },
+   { name := "10.d".toList, hasBinary := true, scans := [⟨68, 56, 0⟩, ⟨124, 56, 1⟩], profile := [[5, 6], [7, 8]], csv := none }]
 
 /-- non-vacuity of `stack_pixel`: two lines, two masses, a log with a failed and a repeated entry -/
 example : linesOf exMeta false [.batchXml] = linesOf exMeta true [.batchXml] := by rfl
-example : ∀ f ∈ exFiles, f.hasBinary = true ∧ ∃ bc, Layout 2 2 0 bc f.scans f.profile := by
+example : ∀ f ∈ exFiles, f.hasBinary = true ∧ ∃ bc, Layout 2 2 bc f.scans f.profile := by
   intro f hf
   simp only [exFiles, List.mem_cons, List.not_mem_nil, or_false] at hf
   rcases hf with rfl | rfl <;> exact ⟨rfl, 56, ⟨rfl, rfl, by decide, by decide, by decide⟩⟩
